@@ -293,7 +293,14 @@ def build_unit(unit, quiet=True):
     rc, so, se = run(['goto-cc', '-c', '-o', os.path.join(d, 'syntax.gb'), cfile])
     if rc != 0:
         raise Undecided('assembled program of unit %s does not compile (missing model / spec error):\n%s' % (unit, (se or so)[-3000:]))
+    # every function the lowered code calls must have a body (a model): a bodiless function would be
+    # treated as "unreachable" by the contract instrumentation and make proofs vacuous
+    rc, so, se = run(['goto-instrument', '--list-undefined-functions', os.path.join(d, 'syntax.gb')])
+    undefined = [ln.strip() for ln in so.split('\n') if ln.strip() and not ln.startswith('Reading') and not ln.strip().startswith('__CPROVER')
+                 and not ln.strip().startswith('__builtin') and not ln.strip().startswith('contract::') and ' ' not in ln.strip()]
     os.remove(os.path.join(d, 'syntax.gb'))
+    if undefined:
+        raise Undecided('unit %s: no model for std entities used by the current source: %s' % (unit, ', '.join(undefined[:20])))
     # call graph closure for contract replacement
     contracted = {fn for fn, e in entries.items() if not e.get('inline') and not e.get('no_replace')}
     repl = {}
